@@ -221,7 +221,7 @@ _RTR_ASSUME = ["A2 (memsock is a faithful model of the kernel sockets above the 
                "real clock: time.Sleep/After/AfterFunc never fire early and all stamps come from the monotonic clock, so every asserted bound is a lower bound or an order; upper bounds (liveness) use a 5 s limit for millisecond-scale operations"]
 
 CHECKS["C13"] = dict(
-    rule=("rapid-drawn router runs on the real clock: post-send pause 0/1/2/5/20 ms, 1..8 sender goroutines, bursts of up to 200 messages, "
+    rule=("rapid-drawn router runs on the real clock: post-send pause 0/0.25/0.5/0.999/1/1.001/1.5/2/5/20 ms, 1..8 sender goroutines, bursts of up to 200 messages, "
           "scenario classes pacing / busy at idle (hand-over stamped, lock then seen held through the TryLock probe, senders released "
           "only then) / busy storm / busy under saturation, routing-lost indications (count 1..6) and busy indications with a wait below the pause injected during half of the pacing bursts so that repetitions compete with queued senders, wait times 0..500 ms and 65535 ms, both control values. Non-trivial = run "
           "with >= 2 contending senders or a busy indication that was seen to take effect; distinct by plan."),
@@ -440,7 +440,7 @@ RULE_ADDENDA = {
 _R10 = {
     "C04": " Half of the socket job's plans are UDP tunnels with traffic in both directions through one kernel socket (20..80 events out, up to 200 indications in): every acknowledgement the gateway receives is judged (channel, status, number of the telegram under way or the one before) and every datagram is one well-formed frame.",
     "C05": " Job stream (real scheduler, perfect link): the gateway tunnels 300..3000 (thorough 30000) telegrams, each the moment it holds the previous acknowledgement (TCP: all at once), at readers that pause 0..1000 us (sleeping or spinning) after blocks of 1..257 telegrams, with 0..200 application Sends and heartbeats every 0.1..10 ms meanwhile; what is read must be 0,1,2,... and one acknowledgement per telegram.",
-    "C08": " Decode-after-decode pairs: for 11.001 every day 1..31 x month 1..12 of a year right after every valid date of that year (years 1990, 2000, 2023, 2024, 2089; thorough all 100), for 10.001 all ordered pairs of 160 field-boundary payloads, for every other fixed-length type all ordered pairs of 81 payloads; a third of the rapid cases decode 1..3 close relatives (one octet changed) first.",
+    "C08": " Decode-after-decode pairs: for 11.001 every day 1..31 x month 1..12 of a year right after every valid date of that year (years 1990, 2000, 2023, 2024, 2089; thorough all 100), for 10.001 all ordered pairs of 160 field-boundary payloads, for every other fixed-length type all ordered pairs of 100 payloads; a third of the rapid cases decode 1..3 close relatives (one octet changed) first.",
     "C11": " Three further layouts (no additional info, other info, same info) are decoded into the L_Data structure used for the previous frame and every field is compared with the bytes.",
     "C13": " At idle the busy indication is followed by a frame the client ignores: once the serve loop has taken that, the indication has been dealt with; senders are released only then and nothing may leave before hand-over + min(wait, 50 ms) (no lock observation needed). A third of the idle plans with a pause >= 2 ms draw 1 <= wait < pause with a non-zero control field.",
     "C14": " A twelfth of the plans start with 1000..8200 indications that nobody reads (1023/1024/1025, 2049, 4100, 8200 among the sizes). Every run without a Close requires that the open client has taken every frame handed to its socket within 5 s.",
@@ -451,6 +451,24 @@ _R10 = {
     "C20": " A quarter of the matching responses carry a device name that fills all 30 octets, built by construction from a response that is one with the name cut to 29.",
 }
 for _k, _v in _R10.items():
+    RULE_ADDENDA[_k] = RULE_ADDENDA.get(_k, "") + _v
+# round 11 of the seeded changes
+_R11 = {
+    "C01": " A third of the TCP plans of the socket job carry 1..2 units of 1025..65535 octets (around 4096 and the powers of two): an unassigned service (delivered as it is) or a tunnelling request with a lying connection header (dropped).",
+    "C03": " A fifth of the configurations have a response timeout below the resend interval (r-1, r/2, r/10, 7 ms). A fifth of all tunnel plans run on the channels 0, 255, 0, 1, 254 instead of numbers from the middle of the range.",
+    "C04": " Plans contain acknowledgements nobody waits for (own or foreign channel, numbers 0/1/2/255, status OK or error); on the fake clock a connected, open tunnel must have taken every frame from its socket once everything has settled (receiver-stalled).",
+    "C06": " For 28.001 every body of 0..5 octets over {00 41 EF BB BF C3 80 FF} and every sequence of up to 4 text units (byte order marks, blanks, invisible and ordinary characters); for 16.xxx all pairs of edge characters at head and tail.",
+    "C07": " Every sequence of up to 4 text units as a value of the string types. Every date 1990-01-01..2089-12-31 under 15 local time zones (zones whose daylight saving starts at midnight, one that skipped a day; zone data embedded in the test binary).",
+    "C08": " Every wrong length up to 300 octets (four fills) and lengths 31..33, 63..65, 127..129, 253..257, 300, 1000 in the rapid part; the date lattice decoded under 15 local time zones.",
+    "C10": " A fifth of the plans run on the channels 0 and 255.",
+    "C12": " A sixth of the inbound telegrams and of the events are repeated 1..3 times in a row (sometimes with traffic that does not surface in between).",
+    "C14": " One Send in 25 hands over a message that cannot be encoded (the encoder panics inside the socket's Send) and recovers; the history goes on and the probe Send must return.",
+    "C16": " A third of the datagram plans contain 1..3 datagrams that are empty or shorter than a frame header; a quarter of the TCP receive plans a frame of 4..64 kB.",
+    "C17": " One burst element in 8 is followed by 1..2 repetitions of the request just sent (re-acknowledged, not delivered, order kept).",
+    "C18": " 24 valid texts x 45 wrappings (Go quotes with and without escapes, brackets, blank/NUL/line-end/byte-order-mark padding, signs, radix prefixes, digit separators, escaped and doubled separators, full-width digits) through both parsers.",
+    "C19": " Every registered name under 59 decorations (NUL, blank, line-end, byte-order-mark padding before and after; quotes; DPT prefixes; other separators; full-width digits).",
+}
+for _k, _v in _R11.items():
     RULE_ADDENDA[_k] = RULE_ADDENDA.get(_k, "") + _v
 for _k, _add in RULE_ADDENDA.items():
     if " Non-trivial =" in CHECKS[_k]["rule"]:
